@@ -2103,4 +2103,99 @@ theorem final_sem (p : Prog) : ∃ pre, FinalSem p (afterIter p) pre := by
     | timeout => simp [QAct.isTimeout] at hnt
     | user l a => cases a <;> simp [isSD] at hnsd <;> rfl
 
+/-! ## the spec's vocabulary in terms of the stages that ran -/
+
+theorem spec_terms (p : Prog) (t : Trace) (pre fut : List (SName × Stage)) (hp : path p = pre ++ fut)
+    (hl : pre.length = t.stages.length) :
+    ranStages p t = pre.map (·.2) ∧ (complete p t = true ↔ fut = []) ∧ (lastInTime p t = true ↔ InTimeP p pre t.stages) ∧
+    sidesRan p t = sidesOf pre ∧ cSequential p t = seqOk pre t.stages (some 0) := by
+  have hran : ranStages p t = pre.map (·.2) := by
+    simp only [ranStages, hp, ← hl, List.take_left']
+  have hov := (seqOk_append_path pre fut t.stages (some 0) hl)
+  refine ⟨hran, ?_, ?_, ?_, ?_⟩
+  · simp only [complete, hp, List.length_append, ← hl, beq_iff_eq]
+    constructor
+    · intro h; exact List.eq_nil_of_length_eq_zero (by omega)
+    · intro h; simp [h]
+  · simp only [lastInTime, hran, hp, hov.2, Bool.or_eq_true, InTimeP, allSyncL, List.all_map]
+    constructor
+    · rintro (h | h)
+      · exact Or.inl h
+      · right
+        cases ho : overAt (some 0) pre t.stages with
+        | none => rw [ho] at h; cases h
+        | some over =>
+          rw [ho] at h
+          simp only [Bool.and_eq_true, decide_eq_true_eq, List.all_eq_true] at h
+          exact ⟨over, rfl, h.1, h.2⟩
+    · rintro (h | ⟨over, ho, h1, h2⟩)
+      · exact Or.inl h
+      · right
+        rw [ho]
+        simp only [Bool.and_eq_true, decide_eq_true_eq, List.all_eq_true]
+        exact ⟨h1, h2⟩
+  · simp only [sidesRan, hran, sidesOf, List.map_map]
+    rfl
+  · simp only [cSequential, hp, hov.1]
+
+/-! ## `_run_core`'s accounting -/
+
+theorem outcomeOf_err_tail (xs ys : List Exc) (hy : ∀ y ∈ ys, y = Exc.err) : outcomeOf (xs ++ [.err] ++ ys) = .error := by
+  simp only [outcomeOf, List.reverse_append, List.reverse_cons, List.reverse_nil, List.nil_append, List.append_assoc]
+  cases hr : ys.reverse with
+  | nil => simp
+  | cons y r =>
+    have : y = .err := hy y (by rw [← List.mem_reverse, hr]; exact List.mem_cons_self)
+    subst this
+    simp
+
+theorem isOutcome_outcomeOf (xs : List Exc) : isOutcome (outcomeOf xs) = true ∧ outcomeOf xs ≠ .success := by
+  simp only [outcomeOf]
+  split <;> simp [isOutcome]
+
+theorem account_value (b : Nat) (excs : List Exc) (logged dropped : Nat) (junk : Bool) :
+    (account (.value b) excs logged dropped junk).stopReq = false ∧
+    ((account (.value b) excs logged dropped junk).successful = true ↔ b = 1 ∧ logged = 0 ∧ dropped = 0 ∧ junk = false) ∧
+    ((account (.value b) excs logged dropped junk).excs = [] ↔ excs = [] ∧ logged = 0 ∧ dropped = 0 ∧ junk = false) := by
+  by_cases h1 : logged > 0 <;> by_cases h2 : dropped > 0 <;> cases junk <;>
+    simp [account, h1, h2] <;> omega
+
+theorem account_other (r : Res) (hr : ∀ b, r ≠ .value b) (excs : List Exc) (logged dropped : Nat) (junk : Bool) :
+    (account r excs logged dropped junk).successful = false ∧ (account r excs logged dropped junk).excs ≠ [] ∧
+    outcomeOf (account r excs logged dropped junk).excs = .error ∧
+    (account r excs logged dropped junk).stopReq = (r == .noresult) := by
+  have key : ∀ sr : Bool, (
+      let (excs1, successful, unhandled, stopReq) : List Exc × Bool × Nat × Bool := (excs ++ [Exc.err], false, 0, sr)
+      let (excs2, successful) : List Exc × Bool :=
+        if logged > 0 then (excs1 ++ List.replicate logged .err, false) else (excs1, successful)
+      let (excs3, successful) : List Exc × Bool :=
+        if unhandled > 0 then (excs2 ++ List.replicate unhandled .err, false) else (excs2, successful)
+      let (excs4, successful) : List Exc × Bool :=
+        if junk then (excs3 ++ [.err], false) else (excs3, successful)
+      successful = false ∧ excs4 ≠ [] ∧ outcomeOf excs4 = .error) := by
+    intro sr
+    by_cases h1 : logged > 0 <;> cases junk <;> simp only [h1, if_true, if_false, Nat.lt_irrefl, Bool.false_eq_true]
+    · refine ⟨trivial, by simp, ?_⟩
+      have := outcomeOf_err_tail excs (List.replicate logged .err) (by
+        intro y hy; exact (List.mem_replicate.mp hy).2)
+      simpa [List.append_assoc] using this
+    · refine ⟨trivial, by simp, ?_⟩
+      have := outcomeOf_err_tail excs (List.replicate logged .err ++ [.err]) (by
+        intro y hy; simp only [List.mem_append, List.mem_replicate, List.mem_singleton] at hy
+        rcases hy with ⟨_, h⟩ | h <;> exact h)
+      simpa [List.append_assoc] using this
+    · refine ⟨trivial, by simp, ?_⟩
+      have := outcomeOf_err_tail excs [] (by simp)
+      simpa using this
+    · refine ⟨trivial, by simp, ?_⟩
+      have := outcomeOf_err_tail excs [.err] (by simp)
+      simpa [List.append_assoc] using this
+  cases r with
+  | value b => exact absurd rfl (hr b)
+  | noresult => exact ⟨(key true).1, (key true).2.1, (key true).2.2, rfl⟩
+  | raised e => exact ⟨(key false).1, (key false).2.1, (key false).2.2, rfl⟩
+  | timeout => exact ⟨(key false).1, (key false).2.1, (key false).2.2, rfl⟩
+  | reentry => exact ⟨(key false).1, (key false).2.1, (key false).2.2, rfl⟩
+  | stalejunk => exact ⟨(key false).1, (key false).2.1, (key false).2.2, rfl⟩
+
 end TTV.Props.C14
